@@ -67,8 +67,17 @@ def unit_code(name: str, prefix: Optional[str]) -> str:
     return u if prefix is None else f"(measured.si.{prefix} * {u})"
 
 
+FURTHER = [False]
+
+
 def replay(sc: str, dc: str, C: Fraction, D: Fraction, what: str) -> str:
-    return families.REPLAY_IMPORTS + f"""
+    pre = """
+from measured import Temperature
+Temperature.scale(100 * measured.si.Kelvin, "c10 scale on kelvin", "c10sk")
+Temperature.scale(50 * measured.us.Rankine, "c10 scale on rankine", "c10sr")
+Temperature.scale(-5 * measured.si.Kelvin, "c10 second scale on kelvin", "c10sk2")
+""" if FURTHER[0] else ""
+    return families.REPLAY_IMPORTS + pre + f"""
 src, dst = {sc}, {dc}
 C, D = {float(C)!r}, {float(D)!r}   # exact affine definition through kelvin: target = C*m + D
 bad = []
@@ -89,7 +98,13 @@ sys.exit(0)
 
 def cmp_replay(sc: str, dc: str, a1: Fraction, b1: Fraction, a2: Fraction, b2: Fraction,
                xv: Fraction, yv: Fraction) -> str:
-    return families.REPLAY_IMPORTS + f"""
+    pre = """
+from measured import Temperature
+Temperature.scale(100 * measured.si.Kelvin, "c10 scale on kelvin", "c10sk")
+Temperature.scale(50 * measured.us.Rankine, "c10 scale on rankine", "c10sr")
+Temperature.scale(-5 * measured.si.Kelvin, "c10 second scale on kelvin", "c10sk2")
+""" if FURTHER[0] else ""
+    return families.REPLAY_IMPORTS + pre + f"""
 U, V = {sc}, {dc}
 x, y = {float(xv)!r}, {float(yv)!r}
 KX, KY = {float(a1)!r} * x + {float(b1)!r}, {float(a2)!r} * y + {float(b2)!r}
@@ -106,10 +121,21 @@ sys.exit(0)
 
 
 def worker(task: Tuple) -> Dict[str, Any]:
-    items, kind, with_cmp = task
+    items, kind, with_cmp = task[:3]
     orc = families.boot()
     import measured
 
+    if len(task) > 3 and task[3] == "further-scales":
+        # an application that declares scales of its own on the same anchors: the four shipped
+        # scales must go on converting by their definitions
+        from measured import Temperature
+
+        if "c10 scale on kelvin" not in measured.Unit._by_name:
+            Temperature.scale(100 * measured.Unit._by_name["kelvin"], "c10 scale on kelvin", "c10sk")
+            Temperature.scale(50 * measured.Unit._by_name["Rankine"], "c10 scale on rankine", "c10sr")
+            Temperature.scale(-5 * measured.Unit._by_name["kelvin"], "c10 second scale on kelvin", "c10sk2")
+
+    FURTHER[0] = len(task) > 3 and task[3] == "further-scales"
     maps = to_kelvin_maps(orc)
     acc = work.Acc()
     P = acc.P
@@ -243,6 +269,8 @@ def tasks_for(tier: str) -> List[Tuple]:
         its = items if (k == "float" or tier == "thorough") else items[::5]
         for ch in par.chunks(its, 16 if k == "float" else 4):
             tasks.append((ch, k, k == "float"))
+    plain = [(s, None, d, None) for s, d in itertools.permutations(SCALES, 2)]
+    tasks.append((plain, "float", True, "further-scales"))
     return tasks
 
 
